@@ -41,6 +41,8 @@ func checkC17(cx *Ctx, r *Report) {
 		"R-TPL: the two built-in auto-submit templates parse to exactly three substitutions each, plain field references without pipelines or functions, whose names are exactly the string fields of the struct handed to Execute; each substitution sits inside a double-quoted attribute value, the URL one in the action attribute of the only form; nothing is substituted inside script or style",
 		"the templates are html/template templates parsed from those constants without a FuncMap; the module does not use text/template; no value of an escaping-bypass type (template.HTML, HTMLAttr, URL, JS, JSStr, CSS, Srcset) is created anywhere in the module; the data fields are plain strings",
 		"no function hands out data aliasing a pooled buffer (the rendered page cannot be overwritten by another request before it is sent)",
+		"R-VFG: the RelayState field of the page data is the request's (SSO, logout) or the stored request's (callback) RelayState, unchanged; the URL field is the selected registered location / the stored consumer URL, unchanged; the SAMLResponse field is the base64 encoding of the marshalled message and nothing else",
+		"R-EMIT: every path of the three page-producing handlers, of their error callbacks and of the two send functions performs exactly one reply act (one page per reply)",
 	}
 	r.NotDec = []string{"correctness of html/template's contextual escaping itself (trusted)", "templates supplied by the embedding application through the configuration"}
 	r.Assume = []string{"html/template escapes plain string data according to the context the template text establishes; a URL attribute with a non-http(s)/mailto scheme is replaced by #ZgotmplZ"}
@@ -217,6 +219,65 @@ func checkC17(cx *Ctx, r *Report) {
 		}
 	}
 	r.Check(nParse == 2, "R-TPL", "#parse-calls", "", "both built-in templates are parsed", fmt.Sprintf("%d template Parse calls found (expected the two built-in templates)", nParse))
+	// --- what is put into the three fields ---------------------------------------------------------------------
+	ssoRS, cbRS, sloRS := `ext:(*http.Request).FormValue("RelayState")#0`, "ext:iface:models.AuthRequestInt.GetRelayState#0", `ext:(url.Values).Get("RelayState")#0`
+	acsLoc := "ext:iface:provider.IDPStorage.GetEntityByID#0.Metadata.SPSSODescriptor.AssertionConsumerService[].Location"
+	sloLoc := "ext:iface:provider.IDPStorage.GetEntityByID#0.Metadata.SPSSODescriptor.SingleLogoutService[].Location"
+	for _, e := range []struct {
+		hk, short, form, urlField string
+		rs, url                   []string
+	}{
+		{kSSO, "sso", "provider.authResponseForm", "AssertionConsumerServiceURL", []string{ssoRS}, []string{acsLoc, "const:"}},
+		{kCallback, "callback", "provider.authResponseForm", "AssertionConsumerServiceURL", []string{cbRS}, []string{"ext:iface:models.AuthRequestInt.GetAccessConsumerServiceURL#0"}},
+		{kLogout, "slo", "provider.LogoutResponseForm", "LogoutURL", []string{sloRS}, []string{sloLoc}},
+	} {
+		vf := cx.vflow(e.hk)
+		if vf == nil {
+			r.Fail("R-VFG", e.short+":form", "", "handler not found")
+			continue
+		}
+		ls, sites := vf.FieldStoreSources(e.form, "RelayState")
+		if len(sites) == 0 {
+			r.Fail("R-VFG", e.short+":form.RelayState", "", "the page data gets no RelayState")
+		} else {
+			r.checkSources("R-VFG", e.short+":form.RelayState", w.InstrPos(sites[0]), ls, e.rs, e.rs, true)
+		}
+		ls, sites = vf.FieldStoreSources(e.form, e.urlField)
+		if len(sites) == 0 {
+			r.Fail("R-VFG", e.short+":form."+e.urlField, "", "the page data gets no target URL")
+		} else {
+			r.checkSources("R-VFG", e.short+":form."+e.urlField, w.InstrPos(sites[0]), ls, e.url, e.url[:1], true)
+		}
+		ls, sites = vf.FieldStoreSources(e.form, "SAMLResponse")
+		if len(sites) == 0 {
+			r.Fail("R-VFG", e.short+":form.SAMLResponse", "", "the page data gets no SAMLResponse")
+		} else {
+			bad := ""
+			for l := range ls {
+				if strings.HasPrefix(l, "via:") && l != "via:(*base64.Encoding).EncodeToString" && l != "via:(*bytes.Buffer).Bytes" {
+					bad = "the SAMLResponse value passes through " + strings.TrimPrefix(l, "via:")
+				}
+			}
+			if _, ok := ls["via:(*base64.Encoding).EncodeToString"]; !ok {
+				bad = "the SAMLResponse value is not a base64 encoding"
+			}
+			r.Check(bad == "", "R-VFG", e.short+":form.SAMLResponse", w.InstrPos(sites[0]), "base64 of the marshalled message, nothing else", bad)
+		}
+	}
+	// --- one page per reply ---------------------------------------------------------------------------------------
+	cx.checkEmitExactlyOne(r, "R-EMIT", kCallback, w.Func(kCallback))
+	for _, hk := range []string{kSSO, kLogout} {
+		if ch := cx.chain(r, hk); ch != nil {
+			checkChainHandlerEmit(cx, r, "R-EMIT", hk, ch)
+			for _, s := range ch.Steps {
+				if ef := s.Fn("errorFunc"); ef != nil {
+					cx.checkEmitExactlyOne(r, "R-EMIT", hk+":callback:"+stepName(cx, s), ef)
+				}
+			}
+		}
+	}
+	cx.checkEmitExactlyOne(r, "R-EMIT", "provider.(*Response).sendBackResponse", w.Func("provider.(*Response).sendBackResponse"))
+	cx.checkEmitExactlyOne(r, "R-EMIT", "provider.(*LogoutResponse).sendBackLogoutResponse", w.Func("provider.(*LogoutResponse).sendBackLogoutResponse"))
 	cx.checkPoolEscape(r)
 	r.Min("R-TPL", 14)
 }
